@@ -12,7 +12,7 @@ from vlib.lab import Lab
 PROPERTY_ID = "C12"
 LEVEL = "exploration"
 RULE = (
-    "Generated: 1-4 (thorough 1-5) inner traced sources (cold / synchronous / hot / subject = hot backed by a real Subject whose late subscribers get its terminal at once / leaky = keeps pushing after it was unsubscribed, the "
+    "Generated: 1-4 (thorough 1-5) inner traced sources (cold / synchronous / hot / subject = hot backed by a real Subject whose late subscribers get its terminal at once / subsched = time-based inner running on the scheduler handed down by subscribe(scheduler=...) / leaky = keeps pushing after it was unsubscribed, the "
     "only way to present a stale inner's notification in a single-threaded run; 0-4 (thorough 0-6) distinct ints each, gaps 0-3, terminal "
     "completion / error / none) and an outer timeline (cold / synchronous / hot, 0-5 (thorough 0-7) elements selecting inners, terminal "
     "completion / error / none); forms switch_latest, switch_map (mapper and default-identity forms), switch_map_indexed, "
@@ -116,6 +116,7 @@ def _run(case):
     inners = [TSource(lab, spec, f"i{i}") for i, spec in enumerate(case["inners"])]
     o = build(case, lab, inners)
     p = lab.probe()
+    lab.expect_sched = True
     lab.at(t0, lambda: p.subscribe(o))
     p2 = None
     s2 = [None]
@@ -162,6 +163,8 @@ def _run(case):
             chosen = got_ok
     pol, op = chosen
     cls = [form, "policy:" + pol, "clock:" + case.get("clock", "test")]
+    if any(x.kind == "subsched" and x.handles for x in op.inners):
+        cls.append("subsched-inner")
     ssrc = [x for x in op.inners if x.kind == "subject" and x.handles]
     if ssrc:
         cls.append("subject-inner")
@@ -203,7 +206,7 @@ def _run(case):
     return OK(cuts >= 1, cls)
 
 
-_KINDS = ("cold", "cold", "sync", "hot", "leaky", "cold", "subject")
+_KINDS = ("cold", "cold", "sync", "hot", "leaky", "cold", "subject", "subsched")
 
 
 @st.composite
